@@ -42,6 +42,17 @@ impl<'a> Sp<'a> {
         if let Some((f, c, n)) = &self.ctx.only {
             return f == self.family && *c == self.cfg && *n == o;
         }
+        if self.ctx.sampled {
+            // slow tools: a seeded 1-in-N sample (N shrinks as the quota grows), spread over the shards
+            let n = (96 / self.ctx.quota.max(1)).max(2);
+            let h = hvcore::util::mix64(o ^ fnv(&self.cfg) ^ self.ctx.seed.wrapping_mul(0x9E37));
+            if h % n != 0 || ((h / n) % self.ctx.nshards as u64) as usize != self.ctx.shard {
+                return false;
+            }
+            let cfg = self.cfg.clone();
+            self.ctx.breadcrumb(&cfg, o);
+            return true;
+        }
         let mine = (o as usize) % self.ctx.nshards == self.ctx.shard;
         if mine {
             let cfg = self.cfg.clone();
